@@ -170,6 +170,32 @@ let handle (toks : string list) : string =
     (* every (handshake frame compressed?, final rw.snappy) over all interleavings of doProtoHandshake *)
     let l = List.sort_uniq compare (handshake_outcomes (bool_of_tok early) (n_of_string v)) in
     String.concat "," (List.map (fun (c, f) -> (if c then "compressed" else "plain") ^ "/" ^ (if f then "snappy" else "nosnappy")) l)
+  | ["dsm"; now; evs] ->
+    (* the discovery packet-history machine: events T<dt> | F<id> | I<from>:P:<exp> | I<from>:O:<tok>:<exp> | I<from>:F:<exp> | I<from>:N:<n>:<exp> *)
+    let ev_of t =
+      let body = String.sub t 1 (String.length t - 1) in
+      match t.[0] with
+      | 'T' -> EvTick (n_of_string body)
+      | 'F' -> EvIssueFindnode (n_of_string body)
+      | _ -> (match String.split_on_char ':' body with
+              | [f; "P"; e] -> EvIn (n_of_string f, InPing (n_of_string e))
+              | [f; "O"; k; e] -> EvIn (n_of_string f, InPong (n_of_string k, n_of_string e))
+              | [f; "F"; e] -> EvIn (n_of_string f, InFindnode (n_of_string e))
+              | [f; "N"; k; e] -> EvIn (n_of_string f, InNeighbors (n_of_string k, n_of_string e))
+              | _ -> failwith "bad event") in
+    let out_s = function
+      | OutPong t -> "pong>" ^ dec t | OutPing (t, k) -> "ping>" ^ dec t ^ "#" ^ dec k
+      | OutFindnode t -> "findnode>" ^ dec t | OutNeighbors (t, c) -> "neighbors>" ^ dec t ^ "*" ^ dec c in
+    let v_s = function VOk -> "ok" | VExpired -> "expired" | VUnsolicited -> "unsolicited" | VUnknownNode -> "unknownnode" | VLocal -> "local" in
+    let s0 = { d_init with d_now = n_of_string now } in
+    let (_, lines) = List.fold_left (fun (s, acc) t ->
+        let ((s', v), o) = step s (ev_of t) in
+        let bonded = List.filter (fun (i, _) -> has_bond s' i) s'.d_bonds in
+        let line = v_s v ^ "/" ^ (if o = [] then "-" else String.concat "+" (List.map out_s o))
+                   ^ "/bonded=" ^ String.concat "." (List.map string_of_int (List.sort compare (List.map (fun (i, _) -> int_of_n i) bonded)))
+                   ^ "/table=" ^ string_of_int (List.length s'.d_table) in
+        (s', line :: acc)) (s0, []) (String.split_on_char ',' evs) in
+    String.concat ";" (List.rev lines)
   | ["decmsg"; t; body] ->
     (match dec_msg (n_of_string t) (bytes_of_hex body) with
      | None -> "err" | Some m -> "ok " ^ kind_of m ^ " " ^ hex_of_bytes (encode_msg m))
